@@ -49,7 +49,7 @@ pub fn gen_case(rng: &mut Rng, lossless_only: bool) -> (Cfg, Vec<F>) {
         let len = match rng.below(9) { 0 => 0, 1 => rng.range(1, 5) as usize, 2 => ssz - 1, 3 => ssz, 4 => ssz + 1, 5 => 3 * ssz + 7, 6 => 2 * ssz, _ => rng.range(1, (3 * ssz) as u64) as usize };
         let len = if rng.chance(1, 12) { len.min(300_000) } else { len.min(70_000) };
         let class = rng.below(5);
-        let name = match i { 0 => "Data\\File0.txt".to_string(), 1 => "b.bin".to_string(), 2 => "Interface\\Glue\\MainMenu.blp".to_string(), _ => format!("Dir{}\\Sub\\f{}.dat", i % 2, i) };
+        let name = match i { 0 => "Data\\File0.txt".to_string(), 1 => "b.bin".to_string(), 2 => "Interface\\Glue\\TheQuickBrownFoxJumpsOverLazyDog_0189.blp".to_string() /* every letter takes part in case folding */, _ => format!("Dir{}\\Sub\\f{}.dat", i % 2, i) };
         files.push(F { name, data: content(rng, len, class), method: *rng.pick(methods), enc: rng.below(3) as u8 });
     }
     // one case in four carries store-raw boundary units: as single-unit files and as the middle sector of a sectored file
